@@ -21,6 +21,8 @@ class RandStub:
     def _next(self):
         return self.ints.pop(0)
 
+    near = None          # when set to (offset, from_top): draws are lo + offset / hi - offset (concrete ints)
+
     def random(self):
         f = self.flt
         hlib.assume(0.0 <= f < 1.0)          # contract: [0.0, 1.0)
@@ -32,9 +34,54 @@ class RandStub:
         ib = b if isinstance(b, int) else operator.index(b)
         if ia > ib:
             raise ValueError("empty range for randrange()")
-        r = self._next()
+        if self.near is not None:
+            off, top = self.near
+            r = ib - off if top else ia + off
+        else:
+            r = self._next()
         hlib.assume(ia <= r <= ib)           # contract: a <= N <= b
         return r
+
+    def randrange(self, start, stop=None, step=1):
+        istart = start if isinstance(start, int) else operator.index(start)
+        if stop is None:
+            if istart <= 0:
+                raise ValueError("empty range for randrange()")
+            if self.near is not None:
+                off, top = self.near
+                r = istart - 1 - off if top else off
+            else:
+                r = self._next()
+            hlib.assume(0 <= r < istart)
+            return r
+        istop = stop if isinstance(stop, int) else operator.index(stop)
+        istep = step if isinstance(step, int) else operator.index(step)
+        if istep != 1:
+            raise NotImplementedError("randrange with a step is outside the stub")
+        if istart >= istop:
+            raise ValueError("empty range for randrange()")
+        if self.near is not None:
+            off, top = self.near
+            r = istop - 1 - off if top else istart + off
+        else:
+            r = self._next()
+        hlib.assume(istart <= r < istop)
+        return r
+
+    def uniform(self, a, b):
+        f = self.flt
+        hlib.assume(0.0 <= f < 1.0)
+        return a + (b - a) * f
+
+    def getrandbits(self, k):
+        r = self._next()
+        hlib.assume(0 <= r < 2 ** k)
+        return r
+
+    def sample(self, population, k):
+        x = list(population)
+        self.shuffle(x)
+        return x[:k]
 
     def choice(self, seq):
         if not len(seq):
@@ -60,7 +107,9 @@ class DecStub:
 
 
 DEC_POOL = [RealDecimal('0'), RealDecimal('1'), RealDecimal('-3'), RealDecimal('7'), RealDecimal('10'),
-            RealDecimal('1E+1'), RealDecimal('2.0'), RealDecimal('12345678901234567890')]
+            RealDecimal('1E+1'), RealDecimal('2.0'), RealDecimal('12345678901234567890'),
+            RealDecimal('10000000000000000000000000001'), RealDecimal('10000000000000000000000000003'),
+            RealDecimal('-99999999999999999999999999999')]
 
 
 def _install(ints, flt):
@@ -105,16 +154,18 @@ def rand_ints(a: int, b: int, draw: int) -> None:
     hlib.done()
 
 
-def rand_decimals(ia: int, ib: int, draw: int) -> None:
+def rand_decimals(ia: int, ib: int, off: int, top: bool) -> None:
     """
-    pre: 0 <= ia < 8 and 0 <= ib < 8
+    pre: 0 <= ia < 11 and 0 <= ib < 11 and 0 <= off <= 2
     post: True
     """
     # integer-valued Decimal bounds: what numeric literals produce (rand(1, 10))
     hlib.enter(locals())
+    ia, ib, off = hlib.concrete(ia, 0, 10), hlib.concrete(ib, 0, 10), hlib.concrete(off, 0, 2)
     a, b = DEC_POOL[ia], DEC_POOL[ib]
     hlib.assume(a <= b)
-    saved = _install([draw], 0.0)
+    saved = _install([], 0.0)
+    functions.random.near = (off, True if top else False)     # concrete draws: real Decimal arithmetic downstream
     raised = None
     r = None
     try:
@@ -125,7 +176,8 @@ def rand_decimals(ia: int, ib: int, draw: int) -> None:
     finally:
         _restore(saved)
     assert raised is None, "rand(a, b) fails for integer-valued Decimal bounds (%s)" % type(raised).__name__
-    assert isinstance(r, DecStub) and r.arg == int(r.arg) and int(a) <= r.arg <= int(b), "rand(a, b) outside [a, b] or not an integer"
+    v = r.arg if isinstance(r, DecStub) else r
+    assert isinstance(v, (int, RealDecimal)) and v == int(v) and a <= v <= b, "rand(a, b) outside [a, b] or not an integer"
     hlib.done()
 
 
